@@ -376,8 +376,8 @@ impl Ctx {
                             ("ProtIntoThin", H::Prot(a)) => H::Thin(Arc::protected_into_thin(a)),
                             ("ThinIntoRaw", H::Thin(t)) => H::RawThin(t.into_raw()),
                             ("ThinFromRaw", H::RawThin(p)) => H::Thin(Thin::from_raw(p)),
-                            ("ThinIntoPtr", H::Thin(t)) => H::RawThin(<Thin as arc_swap::RefCnt>::into_ptr(t)),
-                            ("ThinFromPtr", H::RawThin(p)) => H::Thin(<Thin as arc_swap::RefCnt>::from_ptr(p)),
+                            ("ThinIntoPtr", H::Thin(t)) => H::RawThin(<Thin as arc_swap::RefCnt>::into_ptr(t) as *const std::ffi::c_void),
+                            ("ThinFromPtr", H::RawThin(p)) => H::Thin(<Thin as arc_swap::RefCnt>::from_ptr(p as *const <Thin as arc_swap::RefCnt>::Base)),
                             (n, h) => {
                                 std::mem::forget(h);
                                 crate::payload::harness_bug(&format!("{} on wrong kind", n))
